@@ -241,6 +241,15 @@ def contiguity_note(pred, act):
     return bool(isinstance(pred, dict) and pred.get('contiguous_claim') and 'contiguous' in act and not act['contiguous'])
 
 
+def outcome_kind(x):
+    if 'raises' in x:
+        return 'raises ' + x['raises']
+    for k in ('sym_crash', 'harness_error', 'pyvalue', 'one_of'):
+        if k in x:
+            return k
+    return 'tensor'
+
+
 def brief(x, n=220):
     s = json.dumps(x, sort_keys=True)
     return s if len(s) <= n else s[:n] + '...'
@@ -267,6 +276,7 @@ def main(argv):
     disagreements = []
     n_dis = 0
     by_entry = {}
+    groups = {}
     contig = {'count': 0, 'examples': []}     # contract says 'contiguous', torch result is strided (informational)
     for inst in doc['instances']:
         n += 1
@@ -296,14 +306,22 @@ def main(argv):
             continue
         n_dis += 1
         ent['disagree'] += 1
-        if len(disagreements) < CAP:
-            summary = {'call': inst['call'],
-                       'inputs': {k: {'shape': v['shape'], 'dtype': v['dtype']} for k, v in inst['inputs'].items()}}
-            disagreements.append({'id': inst['id'], 'op': inst['op'], 'why': reasons[0], 'args': brief(summary, 400),
-                                  'predicted': strip_values(pred), 'actual': strip_values(act)})
+        summary = {'call': inst['call'],
+                   'inputs': {k: {'shape': v['shape'], 'dtype': v['dtype']} for k, v in inst['inputs'].items()}}
+        key = '%s | %s | %s -> %s' % (inst['entry'], reasons[0], outcome_kind(pred), outcome_kind(act))
+        groups.setdefault(key, []).append({'id': inst['id'], 'op': inst['op'], 'why': reasons[0], 'args': brief(summary, 400),
+                                           'predicted': strip_values(pred), 'actual': strip_values(act)})
+    # the reported list is capped: take the disagreements round-robin over the distinct kinds so that every kind shows up
+    depth = 0
+    while len(disagreements) < min(CAP, n_dis):
+        for key in groups:
+            if depth < len(groups[key]) and len(disagreements) < CAP:
+                disagreements.append(groups[key][depth])
+        depth += 1
     result = {'tier': doc.get('tier'), 'seed': doc.get('seed'), 'entries': len(doc.get('entries', by_entry)),
               'instances': n, 'agree': agree, 'out_of_subset': oos, 'n_disagreements': n_dis,
-              'per_entry': by_entry, 'contiguity_notes': contig, 'disagreements': disagreements}
+              'per_entry': by_entry, 'contiguity_notes': contig,
+              'disagreement_kinds': {k: len(v) for k, v in groups.items()}, 'disagreements': disagreements}
     line = 'OPTABLE-RESULT ' + json.dumps(result, sort_keys=True)
     if len(argv) > 2:
         with open(argv[2], 'w') as fh:
